@@ -44,8 +44,10 @@ class StatThresholdAnomaliser(CollectiveAnomalyDetector):
         super().__init__()
 
         if self.stat_lower > self.stat_upper:
-            message = f"stat_lower ({self.stat_lower}) must be less"
-            +f" than or equal to stat_upper ({self.stat_upper})."
+            message = (
+                f"stat_lower ({self.stat_lower}) must be less"
+                + f" than or equal to stat_upper ({self.stat_upper})."
+            )
             raise ValueError(message)
 
     def _fit(self, X: pd.DataFrame, y: Optional[pd.DataFrame] = None):
